@@ -997,7 +997,9 @@ func (w *Worker) Nack(ctx context.Context, batch *Batch, taskID string) error {
 			// Both are fatal, so classification is unaffected either way — this
 			// is about not throwing away the cause.
 			if err != nil {
-				return cerrors.FatalError(cerrors.Errorf("%w (while handling: %w)", posErr, err))
+				// cerrors.Errorf wraps a single %w only (a format with two of them
+				// yields an error that wraps neither), so join the two causes.
+				return cerrors.FatalError(cerrors.Join(posErr, err))
 			}
 			return cerrors.FatalError(posErr)
 		}
